@@ -357,6 +357,32 @@ CLAIMED = {
 NOT_YET = "no check (see DESIGN.md)"
 
 
+ADAPTER_SPEC = {"cadence": "Cadence.tla, CadenceTrace.tla, PyList.tla", "cadinject": "CadenceInject.tla, InjectionMath.tla, CadenceTrace.tla",
+                "stream": "Stream.tla", "quantizer": "Quantizer.tla, QuantTrace.tla, Inductive.tla", "pfb": "PFB.tla, Inductive.tla",
+                "backend": "Backend.tla, BackendTrace.tla, ArithLemmas.tla, Inductive.tla", "rawfiles": "RawFiles.tla, RawFilesTrace.tla, ArithLemmas.tla",
+                "accounting": "Accounting.tla", "inputmode": "InputMode.tla", "registration": "Registration.tla", "frameaxes": "FrameAxes.tla",
+                "injection": "Injection.tla, FrameTrace.tla", "constsignal": "ConstSignal.tla", "framelife": "FrameLife.tla, FrameTrace.tla",
+                "split": "Split.tla, ArithLemmas.tla", "noise": "Noise.tla, FrameTrace.tla"}
+
+
+def engines():
+    out = [{"name": "tlc", "path": "/verif/harness/tlc.py", "serves_properties": sorted(CLAIMED),
+            "kind_free_text": "TLC 1.8 model checker / simulator driven from Python (model checking, behaviour generation, batch trace "
+                              "validation via harness/trace.py); specs in /verif/spec"},
+           {"name": "apalache", "path": "/verif/harness/tlc.py", "serves_properties": ["C02", "C04", "C08", "C09", "C19"],
+            "kind_free_text": "Apalache 0.58 (thorough tier): ArithLemmas.tla (length 0) and the inductive invariant of Inductive.tla "
+                              "(base + step) over unbounded integers; 'not discharged' is reported, never a failure"}]
+    serves = {}
+    for pid, c in CLAIMED.items():
+        for e in c["engine"].split("+"):
+            serves.setdefault(e, []).append(pid)
+    for e in sorted(serves):
+        out.append({"name": e, "path": "/verif/harness/adapters/%s.py" % e, "serves_properties": sorted(serves[e]),
+                    "kind_free_text": "adapter binding %s to the real setigen objects (replay of TLC behaviours; recorders / drivers for "
+                                      "the trace legs where present)" % ADAPTER_SPEC.get(e, e)})
+    return out
+
+
 def main():
     checks = []
     for pid in ALL:
@@ -386,10 +412,7 @@ def main():
             "source_commits": [],
             "add_only": True,
         },
-        "engines": [
-            {"name": "tlc", "path": "/verif/harness/tlc.py", "serves_properties": sorted(CLAIMED),
-             "kind_free_text": "TLC 1.8 model checker / simulator driven from Python; specs in /verif/spec"},
-        ],
+        "engines": engines(),
         "checks": checks,
         "notes": ("Every check: exit 0 held / exit 1 + VIOLATION line / exit 2 machinery failure. "
                   "Known findings: /verif/known_findings.json. Seeded changes used to test the checks: /verif/seeded."),
